@@ -32,3 +32,14 @@ Theorem C20_derived_before_spread : forall kv props,
                    /\ match post with [] => True | p :: _ => is_spread p = true end.
 Proof. exact insert_keeps_entries. Qed.
 Print Assumptions C20_derived_before_spread.
+
+(* a call whose options argument is a spread is left alone entirely: neither the call nor the
+   traversal state (helper imports, diagnostics) changes, so nothing is derived for it *)
+Theorem C20_spread_arguments_untouched : forall E sy c f a0 e r t s,
+  hook_call E (Call sy c f (a0 :: Elem true e :: r) t) s = (Call sy c f (a0 :: Elem true e :: r) t, s).
+Proof.
+  intros. unfold hook_call.
+  destruct (negb (o_resolve_type (e_opts E))); [reflexivity|].
+  destruct (negb (is_define_component_call _ s)); reflexivity.
+Qed.
+Print Assumptions C20_spread_arguments_untouched.
